@@ -152,6 +152,20 @@ Definition pcopy_cache (c : cfg) (p : pcache) : pcache * res unit :=
 Definition pinit_cache (c : cfg) (init : list (K * V)) : pcache * res unit :=
   psetitems c p_empty init.
 
+Fixpoint pupd_from (c : cfg) (pi pj : pcache) (ks : list K) : pcache * pcache * res unit :=
+  match ks with
+  | [] => (pi, pj, Ok tt)
+  | k :: rest =>
+      match pgetitem c pj k with
+      | (pj', Ok v) =>
+          match psetitem c pi k v with
+          | (pi', Ok _) => pupd_from c pi' pj' rest
+          | (pi', Raise e) => (pi', pj', Raise e)
+          end
+      | (pj', Raise e) => (pi, pj', Raise e)
+      end
+  end.
+
 Definition phstep (c : cfg) (h : list pcache) (o : hop) : list pcache * nat * res outv :=
   match o with
   | On i o1 =>
@@ -174,6 +188,17 @@ Definition phstep (c : cfg) (h : list pcache) (o : hop) : list pcache * nat * re
           (h, i, Ok (OBool (if Nat.eqb i j then true else pcache_eq p (ps_store p2))))
       | _, _ => (h, i, Raise (OtherExn 1))
       end
+  | UpdateFrom i j =>
+      match nth_error h i, nth_error h j with
+      | Some pi, Some pj =>
+          let ks := d_keys (ps_store pj) in
+          if Nat.eqb i j then (h, i, Ok (OKeys ks))
+          else match pupd_from c pi pj ks with
+               | (pi', pj', Ok _) => (upd_nth i pi' (upd_nth j pj' h), i, Ok (OKeys ks))
+               | (pi', pj', Raise e) => (upd_nth i pi' (upd_nth j pj' h), i, Raise e)
+               end
+      | _, _ => (h, i, Raise (OtherExn 1))
+      end
   end.
 
 Definition pobserve (calls_before : list K) (p : pcache) (out : res outv) : obs :=
@@ -183,7 +208,7 @@ Definition pobserve (calls_before : list K) (p : pcache) (out : res outv) : obs 
 
 Definition pcalls_before_of (h : list pcache) (o : hop) : list K :=
   match o with
-  | On i _ | EqCache i _ => match nth_error h i with Some p => ps_calls p | None => [] end
+  | On i _ | EqCache i _ | UpdateFrom i _ => match nth_error h i with Some p => ps_calls p | None => [] end
   | Copy _ => []
   end.
 
